@@ -2,12 +2,14 @@
 import json, sys
 props = {json.loads(l)["id"]: json.loads(l) for l in open("/verif/properties.jsonl")}
 pid = sys.argv[1]; wt = sys.argv[2]
+VARIANT = sys.argv[3] if len(sys.argv) > 3 else ""
+HINT = " For this round prefer a slip in a formula, a branch condition, a boundary/threshold comparison, an index or an argument that is passed on - rather than adding a new cache or memo." if VARIANT == "b" else ""
 d = props[pid]
 print(f"""You are testing how well a verification effort can detect regressions in the Python library NNPDF/yadism (deep-inelastic-scattering structure functions as PDF-independent operators). You have your OWN scratch git worktree of the repository at {wt} (source under {wt}/src/yadism, tests under {wt}/tests). Work ONLY inside {wt} (and scratch files under {wt} or /tmp/agent-{pid}); never touch /repo or /verif, and do not read anything under /verif.
 
 How to run things: the interpreter is /venv/bin/python (yadism's dependencies are installed there; the package itself is an editable install of another checkout, so ALWAYS run with `PYTHONPATH={wt}/src` and preferably `NUMBA_DISABLE_JIT=1 NUMBA_CACHE_DIR=/tmp/agent-{pid}/numba` so that your worktree's code is the one imported - check with `python -c "import yadism; print(yadism.__file__)"`). There is no network. The repository's pinned test suite is run with:
   cd {wt} && PYTHONPATH={wt}/src /venv/bin/python -m pytest -ra -q -p no:cacheprovider --timeout=900 --continue-on-collection-errors
-On the unmodified tree 84 tests pass and a handful of modules fail at collection (tests/yadbox/test_export, tests/yadism/cf/test_asy, test_cc_light, test_nc_light, test_pc_general) - that is the baseline; the same set must pass/fail after your change. A minimal way to run yadism: `import yadism; out = yadism.run_yadism(theory_dict, observables_dict)`; look at tests/ and src/yadism/input for card keys (theory: PTO, FNS, NfFF, mc, mb, mt, kcThr.., MP, TMC, RenScaleVar, FactScaleVar, CKM, MW, MZ, SIN2TW, FONLLParts, IC, XIR, XIF ...; observables: interpolation_xgrid, interpolation_polynomial_degree, interpolation_is_log, prDIS, TargetDIS, ProjectileDIS, PolarizationDIS, PropagatorCorrection, NCPositivityCharge, observables={{"F2_total": [{{"x":..,"Q2":..}}]}}). Note: in this sandbox FFN0 / FONLL-FFN0 runs of NC F2/FL fail at import because of an incompatible `adani` version - avoid relying on those.
+On the unmodified tree about 84-86 tests pass (one hypothesis-based test in tests/yadism/test_runner.py is flaky; delete .hypothesis/examples after a run) and a handful of modules fail at collection (tests/yadbox/test_export, tests/yadism/cf/test_asy, test_cc_light, test_nc_light, test_pc_general) - that is the baseline; the same set must pass/fail after your change. A minimal way to run yadism: `import yadism; out = yadism.run_yadism(theory_dict, observables_dict)`; look at tests/ and src/yadism/input for card keys (theory: PTO, FNS, NfFF, mc, mb, mt, kcThr.., MP, TMC, RenScaleVar, FactScaleVar, CKM, MW, MZ, SIN2TW, FONLLParts, IC, XIR, XIF ...; observables: interpolation_xgrid, interpolation_polynomial_degree, interpolation_is_log, prDIS, TargetDIS, ProjectileDIS, PolarizationDIS, PropagatorCorrection, NCPositivityCharge, observables={{"F2_total": [{{"x":..,"Q2":..}}]}}). Note: in this sandbox FFN0 / FONLL-FFN0 runs of NC F2/FL fail at import because of an incompatible `adani` version - avoid relying on those.
 
 The semantic property of the library under study:
   id: {pid}
@@ -16,7 +18,7 @@ The semantic property of the library under study:
   quantified over: {d['quantifier']['text']}
   code anchors: {json.dumps(d['anchors'].get('files', []))}; mechanisms: {json.dumps([m['name'] + ' @ ' + m['where'] for m in d['anchors'].get('mechanism', [])])}
 
-Your task: produce ONE realistic change to the library source (a plausible refactoring slip, off-by-one, wrong sign/branch, stale cache, mishandled corner case... the kind of bug a maintainer could introduce) that BREAKS this property while the code still imports/compiles and the pinned test suite gives exactly the same pass/fail set as the baseline. The change must need something specific to manifest - a particular corner of the configuration space, an unusual but valid input, a multi-step sequence of operations, or two cooperating sites that each look fine alone - NOT something that any ordinary run would expose at once (e.g. do not simply flip a sign that changes every result). Prefer subtle, narrow breakage. Do not edit tests.
+Your task: produce ONE realistic change to the library source (a plausible refactoring slip, off-by-one, wrong sign/branch, stale cache, mishandled corner case... the kind of bug a maintainer could introduce) that BREAKS this property while the code still imports/compiles and the pinned test suite gives exactly the same pass/fail set as the baseline. The change must need something specific to manifest - a particular corner of the configuration space, an unusual but valid input, a multi-step sequence of operations, or two cooperating sites that each look fine alone - NOT something that any ordinary run would expose at once (e.g. do not simply flip a sign that changes every result). Prefer subtle, narrow breakage. Do not edit tests.{HINT}
 
 Deliver, all inside {wt}:
   1. the source change, left UNCOMMITTED in the worktree, and also saved as {wt}/mutation.diff (`git -C {wt} diff -- src > {wt}/mutation.diff`);
